@@ -727,3 +727,23 @@ def parseTokens (srcLen : Nat) (ts : List Token) : List Stmt × Errs :=
 def parse (src : Bytes) : List Stmt × Errs := parseTokens src.length (scan src)
 
 end Pql
+
+namespace Pql
+
+/-- `linecol` (both copies: parser.go and pql.go): 1-based line and column of byte offset
+    `pos`, iterating over *runes* of `source[:pos]`; a tab advances to the next multiple of 8 -/
+def linecolRunes : Nat → Bytes → Nat → Nat → Nat × Nat
+  | 0, _, line, col => (line, col)
+  | _, [], line, col => (line, col)
+  | fuel + 1, c :: rest, line, col =>
+    let w := (decodeRune (c :: rest)).2
+    let rest' := (c :: rest).drop w
+    if c == 10 then linecolRunes fuel rest' (line + 1) 1
+    else if c == 9 then linecolRunes fuel rest' line (col + (8 - (col - 1) % 8))
+    else linecolRunes fuel rest' line (col + 1)
+
+def linecol (src : Bytes) (pos : Nat) : Nat × Nat :=
+  let pre := src.take pos
+  linecolRunes (pre.length + 1) pre 1 1
+
+end Pql
